@@ -30,7 +30,9 @@ TlsClasses == {"valid",        \* leaf issued by CA-A, in date, EKU clientAuth+s
                "otherCA",      \* leaf issued by CA-B
                "otherCAchain", \* leaf issued by CA-B followed by CA-B's certificate (the peer ships its own trust anchor)
                "sameNameCA",   \* leaf issued by a foreign CA that carries CA-A's subject name (matches the CA hint)
-               "expired",      \* leaf issued by CA-A, notAfter in the past
+               "expired",      \* leaf issued by CA-A, notAfter in the past (an hour ago)
+               "expiredJust",  \* leaf issued by CA-A, notAfter a few seconds before the endpoint was started
+               "notYetValid",  \* leaf issued by CA-A, notBefore an hour in the future
                "wrongEKU",     \* leaf issued by CA-A, EKU codeSigning only
                "none"}         \* no certificate
 \* "plaintext": a peer that does not speak TLS at all (raw bytes / raw yamux / plaintext gRPC on the TCP connection)
@@ -47,13 +49,13 @@ PlainCred == [class |-> "plaintext", send |-> "always", ver |-> "-", sni |-> "no
 Creds(role) == TlsCreds(role) \cup {PlainCred}
 
 \* ---- facts about the credentials (true by construction of the certificate factory)
-IssuedByA(k)   == k \in {"valid", "validchain", "expired", "wrongEKU"}    \* the LEAF is signed by CA-A's key
-Expired(k)     == k = "expired"
+IssuedByA(k)   == k \in {"valid", "validchain", "expired", "expiredJust", "notYetValid", "wrongEKU"}    \* the LEAF is signed by CA-A's key
+Expired(k)     == k \in {"expired", "expiredJust", "notYetValid"}      \* outside its validity period, by however little
 UsageOk(k)     == k # "wrongEKU"
 SpeaksTls(k)   == k # "plaintext"
 Presents(k)    == k \notin {"none", "plaintext"}
 \* some certificate of what the peer ships names CA-A as its issuer (CertificateRequestInfo.SupportsCertificate)
-HintMatches(k) == k \in {"valid", "validchain", "expired", "wrongEKU", "sameNameCA"}
+HintMatches(k) == k \in {"valid", "validchain", "expired", "expiredJust", "notYetValid", "wrongEKU", "sameNameCA"}
 
 \* ---- PROPERTY level -------------------------------------------------------
 \* TLS is configured at all (TLSConfig.IsEnabled's documented meaning); otherwise the endpoint is plaintext and
